@@ -18,10 +18,15 @@
 (*        hd = handlers [ev (0 = default), h (handler id)]                 *)
 (*   gs : guard id  -> cyclic script of 0/1 results                        *)
 (*   hs : handler id -> cyclic script of results (-1 = no target)          *)
-(*   re : re-entrant attempts [m, k, id, c]: the first time callback       *)
+(*   re : re-entrant attempts [m, k, id, c, t]: the first time callback    *)
 (*        (k, id) of machine m runs (k in "G","H","X","A","E","C"; id =    *)
 (*        guard/handler/state/action id, 0 for "C") it calls c = <<op,ev>> *)
-(*        on machine m itself (op 1 start, 2 stop, 3 restart, 4 run)       *)
+(*        (op 1 start, 2 stop, 3 restart, 4 run) on machine t: m itself,   *)
+(*        or an ancestor of m - then only while that ancestor is still     *)
+(*        inside its own run(), activating its nested machine (see Fire)   *)
+(*   defs: (recorded executions only) the order of the definition calls    *)
+(*        that built the machines; the semantics does not read it (see     *)
+(*        DefsLegal)                                                       *)
 (*                                                                         *)
 (* The four public calls are the actions Start / Stop / Restart / Run(ev)  *)
 (* on the root.  Their meaning is the operator CallM which threads the     *)
@@ -36,9 +41,10 @@
 (*   <<"A", m, a, ev, cur, nxt>>  route action                             *)
 (*   <<"E", m, s, ev, cur>>       enter action of s                        *)
 (*   <<"C", m, from, ev, to, cur>> state-changed notification              *)
-(*   <<"R", m, op, ev, ret, same>> re-entrant call made by the preceding   *)
-(*                                callback: return value and whether the   *)
-(*                                reported state of m stayed the same      *)
+(*   <<"R", m, op, ev, ret, same, t>> re-entrant call on machine t made by *)
+(*                                the preceding callback of m: return      *)
+(*                                value and whether the reported state of  *)
+(*                                t stayed the same                        *)
 (* The property's clauses are the separate invariants at the end.  Variant *)
 (* selects the reference ("ref") or a deliberately wrong semantics (as     *)
 (* found in the code before the repairs, or a typical regression); each    *)
